@@ -492,6 +492,7 @@ where
         Src::Iter(e, _) | Src::IterRef(e, _) => e.len() as u64,
         Src::Range(..) => 0,
     };
+    rt::CLONEPOINT.store(case.clonepoint, std::sync::atomic::Ordering::Relaxed);
     rt::begin_case(nt, iter_kind, case.clonepanic, case.droppanic, src_len);
 
     let mut slots: Vec<OnceLock<I>> = (0..NSLOTS).map(|_| OnceLock::new()).collect();
